@@ -10,7 +10,7 @@ from ..runner import ShardResult
 
 ID = "C13"
 LEVEL = "fault_enumeration"
-RULE = ("23 (start state, call) cases covering store_object (new / duplicate / empty content, first / additional pid, "
+RULE = ("25 (start state, call) cases covering store_object (new / duplicate / empty content, first / additional pid, "
         "cid with a list but no object, pid already bound), tag_object, delete_object (sole / shared reference, with "
         "metadata, missing object), store_metadata (create / overwrite), delete_metadata (one / all) from 6 start "
         "states with bystander pids that share the subject's object and carry metadata (thorough: each case in 5 "
@@ -30,7 +30,8 @@ ASSUMPTIONS = ["the probe intercepts every file-system call of the code under te
                "a fault is an OSError raised in place of the system call; the call's side effect does not happen"]
 EXHAUSTIVE = {"quick": True, "thorough": True}
 SYMPTOMS = {"success-although-fault-free-call-fails", "success-reported-without-whole-effect", "raised-but-pid-bound",
-            "retry-refused", "retry-not-retrievable", "earlier-binding-disturbed", "previous-metadata-version-lost",
+            "retry-refused", "retry-not-retrievable", "earlier-binding-replaced", "earlier-binding-lost-and-retry-refused",
+            "previous-metadata-version-lost",
             "bystander-changed"}
 C08_SYMPTOMS = {"leaked-lock", "follow-up-blocked", "deadlock"}
 CODES = {"EIO": errno.EIO, "ENOSPC": errno.ENOSPC, "EACCES": errno.EACCES}
@@ -119,6 +120,9 @@ def run_fault_shard(case_idxs, tier, sub_seed, symptoms=None, owner="C13"):
                         sc = site_class(case, r["fired"])
                         after_refs = _after_both_refs(case, r["injector"])
                         for symptom, detail in r["problems"]:
+                            if symptom.startswith("note:"):
+                                res.count(symptom[5:].replace("-", "_"))
+                                continue
                             sig = {"symptom": symptom, "call": op_shape(case.call), "case": case.label,
                                    "site": sc, "persistent": persistent, "after_both_refs_written": after_refs}
                             wit = {"engine": "fault", "case_index": ci, "variant": variant, "case": case.label, "start": case.start_name,
